@@ -484,7 +484,7 @@ func (x *Exec) doSlice(fr *Frame, st *State, t *ssa.Slice) Val {
 		mx := opt(t.Max, n)
 		x.safetyOblige(fr, st, "nil", t, "", nonNilTerm(xv))
 		x.safetyOblige(fr, st, "bounds", t, "", and(app("bvsle", zero, lo), app("bvsle", lo, hi), app("bvsle", hi, mx), app("bvsle", mx, n)))
-		return Val{T: t.Type(), L: []string{xv.L[0], lo, x.smt.Name("len", SBV64, app("bvsub", hi, lo)), x.smt.Name("cap", SBV64, app("bvsub", mx, lo))}}
+		return Val{T: t.Type(), L: []string{xv.L[0], lo, x.smt.Name("len", SBV64, foldSub64(hi, lo)), x.smt.Name("cap", SBV64, foldSub64(mx, lo))}}
 	case *types.Basic: // string
 		ln := app("slen", xv.L[0])
 		lo := opt(t.Low, zero)
@@ -767,3 +767,15 @@ func (x *Exec) chanRecv(fr *Frame, st *State, ch Val, t *ssa.UnOp) Val {
 }
 
 var _ = strings.HasPrefix
+
+// foldSub64 computes a-b on 64-bit literals, or builds the term.
+func foldSub64(a, b string) string {
+	if strings.HasPrefix(a, "#x") && strings.HasPrefix(b, "#x") {
+		if av, ok := bvValue(a); ok {
+			if bv, ok := bvValue(b); ok {
+				return bvLit(av-bv, 64)
+			}
+		}
+	}
+	return app("bvsub", a, b)
+}
